@@ -23,6 +23,14 @@ pub enum Focus {
     Hostile, // C05
 }
 
+#[derive(Clone, Copy, Debug, PartialEq, Eq)]
+pub enum ChunkMode {
+    /// arbitrary partition of the fed bytes into recv() buffers
+    Random,
+    /// exactly one whole frame per recv() buffer (reference framer decides the boundaries)
+    WholeFrames,
+}
+
 #[derive(Clone, Debug)]
 pub struct Scenario {
     pub role: Role,
@@ -59,6 +67,7 @@ pub struct Outcome {
     pub model_state: Value,
     pub counters: std::collections::BTreeMap<String, u64>,
     pub known_seen: Vec<Found>,
+    pub op_trace: Vec<String>,
 }
 
 #[derive(Clone, Debug)]
@@ -83,8 +92,8 @@ pub struct Driver {
     pub dead: bool,
     todo: Vec<Todo>,
     close_pending: bool,
-    shape: u64,
-    nontrivial: bool,
+    pub shape: u64,
+    pub nontrivial: bool,
     last_clean: bool,
     pub counters: std::collections::BTreeMap<String, u64>,
     pub probe_every: u64,
@@ -92,6 +101,13 @@ pub struct Driver {
     /// consistent with the library for every one of them), they are reported separately
     pub known: std::sync::Arc<std::collections::HashSet<String>>,
     pub known_seen: Vec<Found>,
+    pub chunk_mode: ChunkMode,
+    /// separate PRNG for chunking so that twins differing only in chunking make the same other choices
+    pub cut_rng: Rng,
+    /// one entry per driver operation (a feed of several recv() calls is ONE entry with the concatenated events)
+    pub op_trace: Vec<String>,
+    /// probability (percent) that a peer feed consists of several concatenated frames
+    pub multi_frame_pct: u64,
 }
 
 const TOPICS: [&str; 3] = ["a", "b", "c/d"];
@@ -118,6 +134,10 @@ impl Driver {
             probe_every: 8,
             known: Default::default(),
             known_seen: Vec::new(),
+            chunk_mode: ChunkMode::Random,
+            cut_rng: Rng::new(seed ^ 0xC0FFEE),
+            op_trace: Vec::new(),
+            multi_frame_pct: 0,
         }
     }
     fn bump(&mut self, k: &str) {
@@ -132,7 +152,7 @@ impl Driver {
         let before = self.sink.found.len();
         self.model.on_call(&call, &events, &mut self.sink);
         if self.sink.found.len() == before && !self.model.lost {
-            let bb = self.r.below(self.probe_every) == 0;
+            let bb = self.cut_rng.below(self.probe_every) == 0;
             self.model.post_checks(&call, &events, self.conn.as_mut(), &mut self.sink, bb);
         }
         let mut h = crate::rng::fnv(call_kind(&call).as_bytes());
@@ -149,6 +169,9 @@ impl Driver {
         }
         self.mix(h);
         self.trace.push(Step { call: call.short(), events: evs_short(&normalise(&events)) });
+        if !matches!(call, Call::Recv { .. }) {
+            self.op_trace.push(format!("{} => {}", call.short(), evs_short(&normalise(&events))));
+        }
         if !self.sink.found.is_empty() && self.sink.found.iter().all(|f| self.known.contains(&f.signature())) {
             let fs: Vec<Found> = self.sink.found.drain(..).collect();
             for f in fs {
@@ -241,9 +264,39 @@ impl Driver {
         let mut all = Vec::new();
         let mut start = 0;
         let mut bounds: Vec<usize> = cuts.iter().copied().filter(|c| *c > 0 && *c < bytes.len()).collect();
+        if self.chunk_mode == ChunkMode::WholeFrames {
+            // boundaries by the reference framer, continuing a frame left incomplete by earlier feeds
+            bounds.clear();
+            let mut virt: Vec<u8> = self.model.pending.clone();
+            let skip = virt.len();
+            virt.extend_from_slice(bytes);
+            let mut pos = 0;
+            loop {
+                match rc::frame_at(&virt[pos..]) {
+                    rc::Framed::Frame { total, .. } => {
+                        pos += total;
+                        if pos > skip {
+                            bounds.push(pos - skip);
+                        }
+                    }
+                    rc::Framed::OverlongLength { at } => {
+                        pos += at;
+                        if pos > skip {
+                            bounds.push(pos - skip);
+                        }
+                    }
+                    rc::Framed::Partial => break,
+                }
+                if pos >= virt.len() {
+                    break;
+                }
+            }
+        }
         bounds.sort();
         bounds.dedup();
+        bounds.retain(|b| *b < bytes.len());
         bounds.push(bytes.len());
+        let op_start = self.trace.len();
         for end in bounds {
             let chunk = &bytes[start..end];
             let mut off = 0;
@@ -270,17 +323,93 @@ impl Driver {
             }
             start = end;
         }
+        let _ = op_start;
+        self.op_trace.push(format!("feed({}) => {}", hexs(bytes), evs_short(&normalise(&all))));
         all
     }
     pub fn feed_pkt(&mut self, p: &Pkt) -> Vec<Ev> {
-        let b = rc::encode(p, self.sc.idw);
+        let mut b = rc::encode(p, self.sc.idw);
+        if self.multi_frame_pct > 0 && self.model.status == St::Cd && self.r.below(100) < self.multi_frame_pct {
+            // several frames in one stream: the chunking may then straddle frame boundaries
+            for _ in 0..1 + self.r.usize(3) {
+                let q = match self.r.below(4) {
+                    0 => self.peer_ack_frame(),
+                    1 => Some(Pkt::Pingresp { ver: self.ver() }),
+                    _ => Some(self.peer_publish()),
+                };
+                if let Some(q) = q {
+                    b.extend(rc::encode(&q, self.sc.idw));
+                }
+            }
+        }
         let cuts = self.gen_cuts(b.len());
         self.feed(&b, &cuts)
     }
+    /// restore an exported session into this (fresh) object and into the model
+    pub fn restore(&mut self, packets: Vec<Pkt>, handled: BTreeSet<u32>) {
+        if self.dead {
+            return;
+        }
+        let call = Call::Restore { packets: packets.clone(), handled: handled.clone() };
+        let r1 = self.conn.restore_packets(&packets);
+        let r2 = self.conn.restore_handled(&handled);
+        match (r1, r2) {
+            (Ok(_), Ok(())) => {
+                self.after(call, vec![]);
+            }
+            (Err(p), _) | (_, Err(p)) => self.panic_found(&call, p),
+        }
+    }
+    /// copy the configuration options recorded by `m` onto this object (configuration scope survives everything)
+    pub fn apply_options(&mut self, m: &Model) {
+        if m.offline {
+            self.set_opt(Opt::OfflinePublish, true);
+        }
+        if m.auto_pub {
+            self.set_opt(Opt::AutoPubResponse, true);
+        }
+        if m.auto_ping {
+            self.set_opt(Opt::AutoPingResponse, true);
+        }
+        if m.auto_map {
+            self.set_opt(Opt::AutoMapTopicAlias, true);
+        }
+        if m.auto_replace {
+            self.set_opt(Opt::AutoReplaceTopicAlias, true);
+        }
+        if m.resp_to != 0 {
+            self.set_pingresp_timeout(m.resp_to);
+        }
+        if m.ping_override.is_some() {
+            self.set_ping_interval(m.ping_override);
+        }
+    }
+    pub fn step_once(&mut self) {
+        if !self.dead {
+            self.step();
+        }
+    }
+    pub fn run_steps(&mut self, n: usize) {
+        for _ in 0..n {
+            if self.dead {
+                break;
+            }
+            self.step();
+        }
+    }
+    pub fn do_setup(&mut self) {
+        self.setup();
+    }
+    pub fn finish_shape(&self) -> u64 {
+        self.shape
+    }
+    pub fn nontrivial(&self) -> bool {
+        self.nontrivial
+    }
     fn gen_cuts(&mut self, len: usize) -> Vec<usize> {
-        match self.r.below(20) {
+        match self.cut_rng.below(20) {
             0..=13 => vec![],
-            14..=17 => (0..1 + self.r.usize(2)).map(|_| self.r.usize(len.max(1))).collect(),
+            14..=17 => (0..1 + self.cut_rng.usize(2)).map(|_| self.cut_rng.usize(len.max(1))).collect(),
             18 => vec![1, 2],
             _ => (1..len).collect(),
         }
@@ -1022,6 +1151,7 @@ impl Driver {
             model_state: self.model.state_json(),
             counters: self.counters,
             known_seen: self.known_seen,
+            op_trace: self.op_trace,
         }
     }
 }
